@@ -9,12 +9,15 @@ import (
 	"context"
 	"database/sql"
 	"database/sql/driver"
+	"errors"
 	"fmt"
 	"io"
-	"regexp"
 	"sort"
 	"strings"
+	"sync"
 	"time"
+
+	"verif/mc/chsim"
 
 	rconfig "github.com/metrico/cloki-config/config"
 	rmodel "github.com/metrico/qryn/reader/model"
@@ -23,14 +26,109 @@ import (
 	"google.golang.org/protobuf/proto"
 )
 
+// mergeDB holds the stored profiles_input rows.  The statement the reader sends is not recognised by its text: it is
+// EXECUTED by the ClickHouse-subset interpreter mc/chsim over profiles_input and the tables the schema's materialized
+// views derive from it (profiles, profiles_series, profiles_series_gin), so any equivalent formulation of the merge
+// query (other CTE names, aliases, lambda variables, tuple(...) vs (...), spacing) gives the same rows.  A statement
+// chsim cannot evaluate, or a result that does not have the shape the reader scans, is a failure of the machinery
+// (errHarness -> exit 2), never a verdict.
 type mergeDB struct {
 	profs   []*storedProf
-	perm    []int // permutation applied to the aggregated tree rows (nil = as produced)
-	revFns  bool  // reverse the order of the functions array
+	perm    []int // permutation applied to the returned tree array (groupArray order is unspecified)
+	revFns  bool  // reverse the returned functions array (groupUniqArrayArray order is unspecified)
 	queries []string
+
+	once sync.Once
+	cdb  *chsim.DB
+	cerr error
 }
 
-var reArrayFirst = regexp.MustCompile(`arrayFirst\(y -> y\.1 == '((?:[^'\\]|\\.)*)'`)
+var errHarness = errors.New("harness")
+
+func tuples2(xs [][2]string) chsim.Array {
+	out := make(chsim.Array, 0, len(xs))
+	for _, x := range xs {
+		out = append(out, chsim.Tuple{x[0], x[1]})
+	}
+	return out
+}
+
+// profilesInputRow renders one stored row in the column order of chsim.QrynSchemas["profiles_input"].
+func profilesInputRow(sp *storedProf) []chsim.Value {
+	va := make(chsim.Array, 0, len(sp.ValuesAgg))
+	for _, v := range sp.ValuesAgg {
+		va = append(va, chsim.Tuple{v.Name, v.Sum, int64(v.Count)})
+	}
+	tree := make(chsim.Array, 0, len(sp.Tree))
+	for _, t := range sp.Tree {
+		vals := make(chsim.Array, 0, len(t.Vals))
+		for _, v := range t.Vals {
+			vals = append(vals, chsim.Tuple{v.Name, v.Self, v.Total})
+		}
+		tree = append(tree, chsim.Tuple{t.Parent, t.Fn, t.Node, vals})
+	}
+	fns := make(chsim.Array, 0, len(sp.Funcs))
+	for _, f := range sp.Funcs {
+		fns = append(fns, chsim.Tuple{f.ID, f.Name})
+	}
+	return []chsim.Value{sp.TimestampNs, sp.Type, sp.ServiceName, tuples2(sp.Types), sp.PeriodType, sp.PeriodUnit, tuples2(sp.Tags),
+		sp.DurationNs, sp.PayloadType, sp.Payload, va, tree, fns}
+}
+
+func (m *mergeDB) db() (*chsim.DB, error) {
+	m.once.Do(func() {
+		want := []string{"timestamp_ns", "type", "service_name", "sample_types_units", "period_type", "period_unit", "tags", "duration_ns",
+			"payload_type", "payload", "values_agg", "tree", "functions"}
+		got := chsim.QrynSchemas["profiles_input"]
+		if len(got) != len(want) {
+			m.cerr = fmt.Errorf("%w: chsim's profiles_input schema has %d columns, the harness renders %d", errHarness, len(got), len(want))
+			return
+		}
+		for i, c := range got {
+			if name, _, _ := strings.Cut(c, " "); name != want[i] {
+				m.cerr = fmt.Errorf("%w: chsim's profiles_input column %d is %s, the harness renders %s", errHarness, i, name, want[i])
+				return
+			}
+		}
+		db := chsim.NewDB()
+		rows := make([][]chsim.Value, 0, len(m.profs))
+		for _, sp := range m.profs {
+			rows = append(rows, profilesInputRow(sp))
+		}
+		db.AddQrynTable("profiles_input", rows)
+		for _, v := range []string{"profiles_mv", "profiles_series_mv", "profiles_series_gin_mv"} {
+			if err := db.Materialize(v); err != nil {
+				m.cerr = fmt.Errorf("%w: %v", errHarness, err)
+				return
+			}
+		}
+		for _, t := range []string{"profiles", "profiles_series", "profiles_series_gin"} {
+			db.Alias(t, t+"_dist")
+		}
+		m.cdb = db
+	})
+	return m.cdb, m.cerr
+}
+
+// arrayOfTuples converts a chsim Array(Tuple(...)) into what clickhouse-go hands to database/sql: [][]any.
+func arrayOfTuples(v chsim.Value, arity int, what string) ([][]any, error) {
+	arr, ok := v.(chsim.Array)
+	if !ok {
+		return nil, fmt.Errorf("%w: column %s is %T, the reader scans an Array(Tuple)", errHarness, what, v)
+	}
+	out := make([][]any, 0, len(arr))
+	for _, e := range arr {
+		t, ok := e.(chsim.Tuple)
+		if !ok || len(t) != arity {
+			return nil, fmt.Errorf("%w: element of %s is %v, want a %d-tuple", errHarness, what, e, arity)
+		}
+		out = append(out, []any(t))
+	}
+	return out, nil
+}
+
+// The three functions below are the harness's own reading of the merge (used for the direct MergeTrie modes, which
+// need un-aggregated rows, and to know how many aggregated rows to permute); the service path does not use them.
 
 // pick is arrayMap(x -> (x.1, x.2, x.3, (arrayFirst(y -> y.1 == T, x.4) as af).2, af.3), tree) for one profile.
 func pick(sp *storedProf, typ string) [][]any {
@@ -118,25 +216,66 @@ func (c *mconn) Prepare(string) (driver.Stmt, error) { return nil, fmt.Errorf("p
 func (c *mconn) Close() error                        { return nil }
 func (c *mconn) Begin() (driver.Tx, error)           { return nil, fmt.Errorf("no tx") }
 
+var stmtCache sync.Map // sql text -> *chsim.Stmt | error
+
 func (c *mconn) QueryContext(ctx context.Context, q string, args []driver.NamedValue) (driver.Rows, error) {
 	c.db.queries = append(c.db.queries, q)
-	if !strings.Contains(q, "groupArray(tree)") || !strings.Contains(q, "groupUniqArrayArray(functions)") ||
-		!strings.Contains(q, "sum(rtree.4), sum(rtree.5)") || !strings.Contains(q, "GROUP BY rtree.1, rtree.2, rtree.3") {
-		return nil, fmt.Errorf("fake: query shape not understood: %s", q)
+	db, err := c.db.db()
+	if err != nil {
+		return nil, err
 	}
-	m := reArrayFirst.FindStringSubmatch(q)
-	if m == nil {
-		return nil, fmt.Errorf("fake: no sample type in: %s", q)
+	var st *chsim.Stmt
+	if x, ok := stmtCache.Load(q); ok {
+		if st, ok = x.(*chsim.Stmt); !ok {
+			return nil, x.(error)
+		}
+	} else {
+		p, err := chsim.Parse(q)
+		if err != nil {
+			err = fmt.Errorf("%w: the interpreter cannot parse the statement: %v: %s", errHarness, err, q)
+			stmtCache.Store(q, err)
+			return nil, err
+		}
+		stmtCache.Store(q, p)
+		st = p
 	}
-	typ := strings.NewReplacer(`\'`, `'`, `\\`, `\`).Replace(m[1])
-	rows := permute(aggregate(c.db.profs, typ), c.db.perm)
-	fns := uniqFns(c.db.profs)
+	res, err := db.Exec(st)
+	if err != nil {
+		// ErrUnsupported = outside the interpreter's subset; a ClickHouse exception would make every flame graph
+		// request fail, which is not what C16 is about: both are reported as machinery failures with the text
+		return nil, fmt.Errorf("%w: the interpreter cannot evaluate the statement: %v: %s", errHarness, err, q)
+	}
+	if len(res.Rows) != 1 || len(res.Cols) != 2 {
+		return nil, fmt.Errorf("%w: the statement returns %d rows x %d columns, the reader scans one row of (tree, functions): %s", errHarness, len(res.Rows), len(res.Cols), q)
+	}
+	rows, err := arrayOfTuples(res.Rows[0][0], 5, res.Cols[0])
+	if err != nil {
+		return nil, err
+	}
+	for _, r := range rows {
+		_, ok0 := r[0].(uint64)
+		_, ok3 := r[3].(int64)
+		_, ok4 := r[4].(int64)
+		if !ok0 || !ok3 || !ok4 {
+			return nil, fmt.Errorf("%w: tree tuple %v does not have the types (UInt64, UInt64, UInt64, Int64, Int64)", errHarness, r)
+		}
+	}
+	fns, err := arrayOfTuples(res.Rows[0][1], 2, res.Cols[1])
+	if err != nil {
+		return nil, err
+	}
+	if c.db.perm != nil {
+		if len(c.db.perm) != len(rows) {
+			return nil, fmt.Errorf("%w: the statement returns %d tree rows, the reference aggregation %d", errHarness, len(rows), len(c.db.perm))
+		}
+		rows = permute(rows, c.db.perm)
+	}
 	if c.db.revFns {
 		for i, j := 0, len(fns)-1; i < j; i, j = i+1, j-1 {
 			fns[i], fns[j] = fns[j], fns[i]
 		}
 	}
-	return &oneRow{cols: []string{"_tree", "_functions"}, vals: []driver.Value{rows, fns}}, nil
+	return &oneRow{cols: res.Cols, vals: []driver.Value{rows, fns}}, nil
 }
 
 type oneRow struct {
